@@ -144,9 +144,31 @@ def rule_armers(ctx, M, units):
                 ctx.check(ok, "C16.ARMERS", where, "readiness resize only from reserve / insert_pinned / WakerVec::resize", site=s.where)
 
 
+class _Lit:
+    """a struct literal standing in for a `new(id, ..)` call site"""
+
+    def __init__(self, block, idt):
+        self.block = block
+        self._id = idt
+
+    def arg(self, k):
+        return self._id if k == 0 else None
+
+
 def _waker_new_sites(M, bi, inline, depth=0):
     """(BodyInfo, site) of every `<inline>::new(id, ..)` reachable in this body or in closures it builds"""
     out = [(bi, s) for s in bi.sites if s.callee.owner == inline and s.callee.name == "new"]
+    # the constructor written out as a struct literal: `InlineWakerVec { id, readiness }`
+    body = bi.body
+    for b in sorted(body.reachable):
+        if body.is_cleanup(b):
+            continue
+        for st in body.stmts(b):
+            if st["k"] == "assign" and st["rv"]["k"] == "agg" and st["rv"].get("ak") == "adt" and simple_name(st["rv"].get("cpath")) == inline \
+                    and not (body.impl_self is not None and simple_name(M.adt_of_type(body.impl_self) or "") == inline):
+                names = st["rv"].get("fnames") or []
+                if "id" in names:
+                    out.append((bi, _Lit(b, bi.T.of_operand(st["rv"]["fields"][names.index("id")]))))
     if depth < 2:
         for (_, cp, nb, st) in nested(M, bi):
             if nb is not None:
@@ -176,10 +198,14 @@ def _id_is_position(M, bi, xi, site, start_pred):
                             return start_pred(src[2][0])
         return False
     r = scan.loop_item_root(idt)
-    if r is not None and r[2] and r[2][0][0] == "agg" and r[2][0][1] == ("Range", "Range"):
-        lp = bi.body.innermost_loop(site.block)
-        pushes = [p for p in bi.sites if p.callee.name == "push" and lp is not None and p.block in lp[1]]
-        return start_pred(r[2][0][2][0]) and len(pushes) == 1
+    if r is not None and r[2]:
+        it = r[2][0]
+        while it[0] == "call" and it[1][1] in ("into_iter", "by_ref") and it[2]:
+            it = it[2][0]
+        if it[0] == "agg" and it[1] == ("Range", "Range") and idt == ("field", ("variant", r, "Some"), 0):
+            lp = bi.body.innermost_loop(site.block)
+            pushes = [p for p in bi.sites if p.callee.name == "push" and lp is not None and p.block in lp[1]]
+            return start_pred(it[2][0]) and len(pushes) == 1
     return False
 
 
